@@ -27,7 +27,7 @@ import (
 type WSig struct {
 	Key      string `json:"key"`                 // pool key name, or "pki:<cert name>"
 	ClaimID  string `json:"claim_id,omitempty"`  // "" = the signer's key id; "pool:<name>" / "pki:<name>" = claim that key's id; other = literal
-	Forge    string `json:"forge,omitempty"`     // "" valid | "other-content" well-formed signature over different bytes | "garbage" undecodable value
+	Forge    string `json:"forge,omitempty"`     // "" valid | "other-content" well-formed signature over different bytes | "garbage" undecodable value | "short" two well-encoded bytes
 	WithCert bool   `json:"with_cert,omitempty"` // attach the signer's certificate (legacy wrapper only)
 	CertOf   string `json:"cert_of,omitempty"`   // attach another certificate instead: "pki:<name>" or "pubkey:<pool name>" (a bare public key PEM)
 	Chain    []string `json:"chain,omitempty"`   // further PKI certificates appended to the cert member (the signer brings his own intermediates - or somebody else's certificate)
@@ -228,6 +228,13 @@ func (b *Built) FileBytes(f WMetaFile) ([]byte, error) {
 		}
 		if s.Forge == "garbage" {
 			e["sig"] = "zz-not-an-encoded-signature"
+		}
+		if s.Forge == "short" {
+			// well-formed encoding of two bytes: an entry that was cut off (or never was a signature)
+			e["sig"] = "abcd"
+			if f.Wrapper == "dsse" {
+				e["sig"] = "q80="
+			}
 		}
 		if f.Wrapper != "dsse" {
 			switch {
